@@ -62,6 +62,7 @@ FIXED = [
  ("F54", "C19", "fix: a forced default namespace in HTML5 output replaces the previous one", "an svg element nested in math content nested in svg content was written without xmlns= (stale default-namespace entry)"),
  ("F55", "C19", "fix: HTML5 serialization of a subtree does not rely on a default namespace it does not write", "HTML5 serialisation of an inner element assumed an inherited default namespace that it does not write on the top element: an svg/math descendant came out without xmlns= (found by `vp check` at VERIF_SEED=1)"),
  ("F56", "C06", "fix: a text node is never consolidated with itself", "insert_before(pi, b) on adjacent text nodes a b c <?pi?> (left over from a consolidation-off phase) with consolidation on merged b into itself and panicked (found by the thorough tier of C06; the mixed-consolidation catalogue was extended to four children so that quick reaches it)"),
+ ("F52b", "C15", "fix: deduplicate_namespaces still drops a repeated default declaration above an attribute of that namespace", "follow-up to the F52 repair, which had become over-cautious: <doc xmlns=\"X\"><a xmlns=\"X\"><b xmlns:p=\"X\" p:attr=\"\"/></a></doc> kept the redundant xmlns=\"X\" on a, which the pinned tree removed (no clause of C15 was violated; noticed because the demonstration of seeded change C15-2 asserts the exact output)"),
  ("F31a", "C06", "fix: create_missing_prefixes returns an error for a document without an element", "create_missing_prefixes panicked on a document without element"),
 ]
 OPEN = [
